@@ -237,6 +237,26 @@ BigSelectRel(b, fill, base, Pb, j) ==
         ELSE Cl(which \o ".gen_lead", {BigAdd(base, SelectP(Pb, j))})
 
 ---------------------------------------------------------------------------
+(* The public generators of perf_and_test_utils (beyond the listed         *)
+(* properties): randomised, so only their documented contracts are stated. *)
+
+\* n values of the alphabet [0, sigma] / of the range [0, range_size]
+TuBounded(out, n, bound) == Len(out) = n /\ \A t \in 1..Len(out) : out[t] >= 0 /\ out[t] <= bound
+\* n pairs (value in [0, range_size], symbol in [0, sigma])
+TuPairs(out, n, r, sigma) == Len(out) = n /\ \A t \in 1..Len(out) : out[t][1] >= 0 /\ out[t][1] <= r /\ out[t][2] >= 0 /\ out[t][2] <= sigma
+\* a strictly increasing sequence of n values up to u
+TuIncreasing(out, n, u) == Len(out) = n /\ StrictlyIncreasing(out) /\ \A t \in 1..Len(out) : out[t] >= 0 /\ out[t] <= u
+\* all the values below the last element of the strictly increasing v that are not in v
+TuNegate(v) == SelectSeq([q \in 1..v[Len(v)] |-> q - 1], LAMBDA x : \A t \in 1..Len(v) : v[t] # x)
+\* rank queries on s: (a position of s, a symbol of s)
+TuRankQueries(out, n, s) == Len(out) = n /\ \A t \in 1..Len(out) :
+    out[t][1] >= 0 /\ out[t][1] < Len(s) /\ \E q \in 1..Len(s) : s[q] = out[t][2]
+\* select queries on s: (p, c) with c a symbol of s and 1 <= p <= number of occurrences of c
+TuSelectQueries(out, n, s) == Len(out) = n /\ \A t \in 1..Len(out) :
+    /\ \E q \in 1..Len(s) : s[q] = out[t][2]
+    /\ out[t][1] >= 1 /\ out[t][1] <= Cardinality({q \in 1..Len(s) : s[q] = out[t][2]})
+
+---------------------------------------------------------------------------
 (* Kinds of values and the conversions between them (the type-state graph  *)
 (* of the library): which conversion methods a kind offers and the kind    *)
 (* of the result.  TraceLib's Conv action and the LibConv machine share    *)
